@@ -51,6 +51,9 @@ func (fr *Frame) evalBool(e *CExpr, env *Env) *Term {
 }
 
 func (fr *Frame) evalTerm(e *CExpr, env *Env) *Term {
+	nf := fr.noFreeze
+	fr.noFreeze = true
+	defer func() { fr.noFreeze = nf }()
 	g := fr.evalC(e, env, nil)
 	saved := fr.ex.st
 	fr.ex.st = env.st
@@ -294,6 +297,9 @@ func (fr *Frame) evalC(e *CExpr, env *Env, hint *Sort) *GVal {
 }
 
 func (fr *Frame) termIn(g *GVal, env *Env) *Term {
+	nf := fr.noFreeze
+	fr.noFreeze = true
+	defer func() { fr.noFreeze = nf }()
 	saved := fr.ex.st
 	fr.ex.st = env.st
 	t := fr.term(g)
@@ -579,6 +585,16 @@ func (fr *Frame) evalCall(e *CExpr, env *Env, hint *Sort) *GVal {
 			return tv(g.Fresh)
 		}
 		return tv(TFalse)
+	case "kindOf":
+		return tv(App("kindOf", SInt, arg(0, SVal)))
+	case "same":
+		a := arg(0, nil)
+		b := arg(1, a.S)
+		if a.S != b.S {
+			ex.unsupp("contract: same() on different sorts in %s", e)
+			return tv(TTrue)
+		}
+		return tv(Eq(a, b))
 	case "isNaN":
 		return tv(App("fp.isNaN", SBool, arg(0, SF64)))
 	case "isInf":
@@ -605,6 +621,22 @@ func (fr *Frame) evalCall(e *CExpr, env *Env, hint *Sort) *GVal {
 			fs := ex.heapFieldSort(parts[0], parts[1])
 			return tv(Eq(ex.heapGet(env.st, key, fs), ex.heapGet(env.old, key, fs)))
 		}
+	}
+	// contract macro
+	if m, ok := ex.p.cs.Macros[e.Name]; ok {
+		if len(m.Params) != len(e.Args) {
+			ex.unsupp("contract: macro %s expects %d arguments in %s", e.Name, len(m.Params), e)
+			return tv(TTrue)
+		}
+		menv := *env
+		menv.vars = map[string]*GVal{}
+		for k, v := range env.vars {
+			menv.vars[k] = v
+		}
+		for i, pn := range m.Params {
+			menv.vars[pn] = fr.evalC(e.Args[i], env, nil)
+		}
+		return fr.evalC(m.Body, &menv, hint)
 	}
 	// spec function
 	if sd, ok := ex.p.specs[e.Name]; ok {
